@@ -1,7 +1,78 @@
-(* C09 - LeafNodes.  Statements only. *)
-From Mxj Require Import Model.TreeOps Proofs.C07P Proofs.KVTotal.
+(* C09 - LeafNodes lists every terminal value once, with a path that resolves to it.
+   Statements only; proofs in Proofs/C09P.v, vocabulary in Spec/Leaves.v. *)
+From Mxj Require Import Model.TreeOps Spec.PathSem Spec.Leaves Proofs.C07P Proofs.KVTotal Proofs.C09P.
 
-(* the path LeafNodes builds for a list member resolves through ValuesForPath without a panic *)
+(* ---- 1. enumeration: exactly one entry per scalar, arbitrary keys (also the empty key),
+        any attribute prefix, text key and list notation ---- *)
+Theorem C09_leaves_complete : forall ap tk dotn m,
+  map snd (leaf_nodes ap tk dotn m false) = scalars m.
+Proof. exact leaf_values_all. Qed.
+Print Assumptions C09_leaves_complete.
+
+(* with the no-attributes option: the scalars of the Map without its attribute entries *)
+Theorem C09_leaves_complete_noattr : forall ap tk dotn m,
+  map snd (leaf_nodes ap tk dotn m true) = scalars (strip_attrs ap m).
+Proof. exact leaf_values_noattr. Qed.
+Print Assumptions C09_leaves_complete_noattr.
+
+(* ---- 2. the whole result, paths included: LeafNodes is the specification leaf_spec
+        (address of every scalar, rendered with "." and "[N]" / ".N"); for noattr = true
+        this is the "removes exactly the attribute entries and the text-key segment" clause ---- *)
+Theorem C09_leaf_nodes_spec : forall ap tk dotn m noattr,
+  leaf_nodes ap tk dotn m noattr = leaf_spec ap tk dotn m noattr.
+Proof. exact leaf_nodes_spec. Qed.
+Print Assumptions C09_leaf_nodes_spec.
+
+(* ---- 3. LeafPaths / LeafValues are the projections of LeafNodes for the same option ---- *)
+Theorem C09_leaf_projections : forall ap tk dotn m noattr,
+  combine (leaf_paths ap tk dotn m noattr) (leaf_values ap tk dotn m noattr) = leaf_nodes ap tk dotn m noattr /\
+  length (leaf_paths ap tk dotn m noattr) = length (leaf_nodes ap tk dotn m noattr) /\
+  length (leaf_values ap tk dotn m noattr) = length (leaf_nodes ap tk dotn m noattr).
+Proof. exact leaf_projections. Qed.
+Print Assumptions C09_leaf_projections.
+
+Theorem C09_leaf_values_spec : forall ap tk dotn m noattr,
+  leaf_values ap tk dotn m noattr = scalars (if noattr then strip_attrs ap m else m).
+Proof. exact leaf_values_spec. Qed.
+Print Assumptions C09_leaf_values_spec.
+
+Theorem C09_leaf_paths_spec : forall ap tk dotn m noattr,
+  leaf_paths ap tk dotn m noattr =
+  map (fun pv => render tk dotn noattr (fst pv)) (leaves (if noattr then strip_attrs ap m else m)).
+Proof. exact leaf_paths_spec. Qed.
+Print Assumptions C09_leaf_paths_spec.
+
+(* ---- 4. string layer of the resolution clause: "name[N]" parses back to (name, N) ---- *)
+Theorem C09_parse_seg_indexed : forall name i,
+  mem_ascii lbr name = false -> (Z.of_nat i < 2 ^ 31)%Z ->
+  parse_seg (idx_seg name i) = Ok {| pk_name := name; pk_arr := true; pk_pos := Z.of_nat i |}.
+Proof. exact parse_seg_indexed. Qed.
+Print Assumptions C09_parse_seg_indexed.
+
+(* resolving a leaf path never panics *)
 Theorem C09_resolution_total : forall pf sep m path, values_for_path pf sep m path [] <> Panic.
 Proof. intros; apply values_for_path_no_panic. Qed.
 Print Assumptions C09_resolution_total.
+
+(* ---- non-vacuity ---- *)
+Local Open Scope string_scope.
+Definition ex9 : value :=
+  VMap [(s"doc", VMap [(s"-id", VStr (s"7"));
+                       (s"", VInt 0);
+                       (s"items", VList [
+                          VMap [(s"#text", VStr (s"t")); (s"-n", VStr (s"1"));
+                                (s"sub", VMap [(s"list", VList [VStr (s"a"); VNil])])];
+                          VBool true])])].
+
+Example C09_ex_leaves :
+  leaf_nodes (s"-") (s"#text") false ex9 false =
+    [(s"doc.-id", VStr (s"7")); (s"doc.", VInt 0); (s"doc.items[0].#text", VStr (s"t"));
+     (s"doc.items[0].-n", VStr (s"1")); (s"doc.items[0].sub.list[0]", VStr (s"a"));
+     (s"doc.items[0].sub.list[1]", VNil); (s"doc.items[1]", VBool true)] /\
+  scalars ex9 = [VStr (s"7"); VInt 0; VStr (s"t"); VStr (s"1"); VStr (s"a"); VNil; VBool true] /\
+  leaf_nodes (s"-") (s"#text") false ex9 true =
+    [(s"doc.", VInt 0); (s"doc.items[0]", VStr (s"t")); (s"doc.items[0].sub.list[0]", VStr (s"a"));
+     (s"doc.items[0].sub.list[1]", VNil); (s"doc.items[1]", VBool true)] /\
+  leaf_paths (s"-") (s"#text") true ex9 true =
+    [s"doc."; s"doc.items.0"; s"doc.items.0.sub.list.0"; s"doc.items.0.sub.list.1"; s"doc.items.1"].
+Proof. vm_compute. repeat split. Qed.
